@@ -34,6 +34,7 @@ type Env struct {
 	IDs  [ct.NumComps]ecs.ID
 	Reg  [ct.NumComps]bool
 	Mode RelMode
+	ctor int // number of wrapper constructions so far (see ViaNew)
 }
 
 // NewEnv creates an environment. Components are registered lazily (or by Register).
@@ -55,6 +56,14 @@ func (e *Env) IDList(cs []ct.Comp) []ecs.ID {
 		out[i] = e.ID(c)
 	}
 	return out
+}
+
+// ViaNew alternates between the two documented ways of constructing mappers, filters, exchangers and
+// observers: the NewX / ObserveN function and the New method on a nil pointer ("for dependency
+// injection"). The choice is a deterministic function of the construction order within one world.
+func (e *Env) ViaNew() bool {
+	e.ctor++
+	return e.ctor%2 == 0
 }
 
 // CompByID maps an ID back to the universe component; ok=false for dummies.
